@@ -1,7 +1,6 @@
 # C16 configuration fragment (merged by tools/propcfg.py)
 from propcommon import COMMON_MODELLED
 PROP = dict(
-        claimed=False,  # until the key-overwrite classification is adapted to the lookup fix
         gotest="TestC16",
         extra_gotests=[("TestZdec", "Zdec")],
         model="coq/Models/Oracle.v (exact, byte-string keys: PriceKey, sorted KV store, reverse prefix iteration, GetAssetPrice, "
@@ -23,8 +22,9 @@ PROP = dict(
         modelled="x/oracle price store, lookups, end-blocker, feeder and asset-info handlers as Gallina functions over byte strings and N/Z; " + COMMON_MODELLED,
         level_text="Theorems (Coq, closed under the global context) over an exact Gallina model with byte-string keys: for every history whose fed "
                    "(asset, source) names are separated the store equals the specification map and GetAssetPrice returns the newest elys, else band, "
-                   "else some source's newest price of exactly the asked asset (and nothing iff none is live); for colliding names this is REFUTED "
-                   "by a witness that is replayed on the real keeper; expiry, no-info/no-price => zero, and only-registered-and-active-feeders-write "
+                   "else some source's newest price of exactly the asked asset (and nothing iff none is live); for the repaired lookup (fix: b6f0d96) the lookup "
+                   "returns a stored entry of exactly the asked asset/source for ALL names; the pre-fix lookup and the key format (same-key overwrite, open known finding) are REFUTED "
+                   "by witnesses that are replayed on the real keeper; expiry, no-info/no-price => zero, and only-registered-and-active-feeders-write "
                    "hold for all names and histories. The model is replayed by Coq's VM on the very histories the real app executed and must "
                    "reproduce result kind, number of stored prices and every lookup after every step.",
         level_note="Trusted: Coq kernel+VM; the Go harness; disjointness of the sub-store prefixes; price writers that cannot run offline (Band IBC, "
